@@ -69,6 +69,9 @@ def surrounding(rng, tag, rich, same_names=()):
         ["class ZqHolder_{0}(object):".format(tag), "    class ConfigClass(object):", "        zq_nested_same_name_{0} = 1".format(tag),
          "    f_target = {0!r}".format("zq_attr_named_like_target_" + tag), "    set_cli_args: int = 7"],
         ["__all__ = ['ConfigClass', 'f_target', 'set_cli_args', 'zq_{0}']".format(tag)],
+        # multi-line string literals (not docstrings) with a line that holds only blanks
+        ['ZQ_BANNER_{0} = """zq first'.format(tag), "  ", "   zq last", '"""',
+         "def zq_expected_{0}():".format(tag), '    return """zq a', "\t", '    zq b"""'],
         # positional-only parameters (top level and as a method of another class)
         ["def zq_scale_{0}(zq_a, /, zq_b=2, *, zq_c=3):".format(tag), "    return zq_a * zq_b + zq_c", "",
          "class ZqPos_{0}(object):".format(tag), "    def zq_train(self, zq_epochs, /, zq_name='x'):", "        return zq_epochs, zq_name"],
